@@ -59,3 +59,30 @@ Theorem C12_source_feed : forall v c, stepM v (Feed c) = interp_skel g_feed_str_
 Proof. exact tie_feed. Qed.
 Check C12_source_feed : forall v c, stepM v (Feed c) = interp_skel g_feed_str_each (AChar c) g_feed_skel v.
 Print Assumptions C12_source_feed.
+
+From Avt Require Import Proofs.C12Lines.
+(** Proofs/C12Lines.v (statement audit) *)
+(** chunk independence from EVERY state satisfying the invariant - the hypothesis `parked_ok` of C12_sessions (no resize while the alternate screen shows) is discharged: no control function except the return to the primary screen and RIS reads the parked buffer *)
+Theorem C12_sessions_every_state : forall v ss1 ss2 v1 o1 v2 o2, TInv (vterm v) -> concat ss1 = concat ss2 -> run_session v ss1 = Ok (v1, o1) -> run_session v ss2 = Ok (v2, o2) -> vparser v1 = vparser v2 /\ Rvis (vterm v1) (vterm v2).
+Proof. exact C12_sessions_any. Qed.
+Check C12_sessions_every_state : forall v ss1 ss2 v1 o1 v2 o2, TInv (vterm v) -> concat ss1 = concat ss2 -> run_session v ss1 = Ok (v1, o1) -> run_session v ss2 = Ok (v2, o2) -> vparser v1 = vparser v2 /\ Rvis (vterm v1) (vterm v2).
+Print Assumptions C12_sessions_every_state.
+
+(** char-at-a-time feed() vs any chunking, from every state *)
+Theorem C12_perchar_every_state : forall v0 s ss u v o, TInv (vterm v0) -> feed_chars v0 s = Ok u -> run_session v0 ss = Ok (v, o) -> concat ss = s -> vparser u = vparser v /\ Rvis (vterm u) (vterm v).
+Proof. exact C12_perchar_any. Qed.
+Check C12_perchar_every_state : forall v0 s ss u v o, TInv (vterm v0) -> feed_chars v0 s = Ok u -> run_session v0 ss = Ok (v, o) -> concat ss = s -> vparser u = vparser v /\ Rvis (vterm u) (vterm v).
+Print Assumptions C12_perchar_every_state.
+
+(** unlimited scrollback, char-at-a-time feed(): the same lines() whenever the PRIMARY screen shows at the end - exactly the complement of KF-C12-1 (C12_perchar_lines_alt_refuted: on the alternate screen 6 lines vs 2) *)
+Theorem C12_perchar_same_lines : forall v0 s ss u v o, TInv (vterm v0) -> sb_limit (vterm v0) = None -> feed_chars v0 s = Ok u -> run_session v0 ss = Ok (v, o) -> concat ss = s -> active (vterm u) = Primary -> lines (buf (vterm u)) = lines (buf (vterm v)).
+Proof. exact C12_perchar_lines. Qed.
+Check C12_perchar_same_lines : forall v0 s ss u v o, TInv (vterm v0) -> sb_limit (vterm v0) = None -> feed_chars v0 s = Ok u -> run_session v0 ss = Ok (v, o) -> concat ss = s -> active (vterm u) = Primary -> lines (buf (vterm u)) = lines (buf (vterm v)).
+Print Assumptions C12_perchar_same_lines.
+
+(** any two interleavings of feed() and feed_str() calls carrying the same characters *)
+Theorem C12_mixed_calls : forall v0 ops1 ops2 v1 o1 v2 o2, TInv (vterm v0) -> no_resize ops1 -> no_resize ops2 -> feeds ops1 = feeds ops2 -> run_ops v0 ops1 = Ok (v1, o1) -> run_ops v0 ops2 = Ok (v2, o2) -> vparser v1 = vparser v2 /\ Rvis (vterm v1) (vterm v2).
+Proof. exact C12_ops_any. Qed.
+Check C12_mixed_calls : forall v0 ops1 ops2 v1 o1 v2 o2, TInv (vterm v0) -> no_resize ops1 -> no_resize ops2 -> feeds ops1 = feeds ops2 -> run_ops v0 ops1 = Ok (v1, o1) -> run_ops v0 ops2 = Ok (v2, o2) -> vparser v1 = vparser v2 /\ Rvis (vterm v1) (vterm v2).
+Print Assumptions C12_mixed_calls.
+
